@@ -53,6 +53,8 @@ KNOWN_SITES = {
     'pep8.py:_get_wanted_blank_lines_count:AttributeError': 'pep8-indentation-stack-underflow',
     'pep8.py:_visit_node:AssertionError': 'pep8-indentation-stack-underflow',
     'prefix.py:split_prefix:AttributeError': 'prefix-comment-formfeed',
+    'pep8.py:_visit_part:TypeError': 'pep8-tab-config-vertical-bracket',
+    'pep8.py:__init__:TypeError': 'pep8-tab-config-vertical-bracket',
 }
 
 
